@@ -2,5 +2,5 @@
 # usage: tools/try_patch.sh <patch> <check args...>   -- applies a patch to /repo, runs ./check, reverts
 P="$1"; shift
 cd /repo && git apply "$P" || { echo "PATCH DOES NOT APPLY"; exit 3; }
-cd /verif && ./check "$@" 2>&1 | grep -v "^KNOWN-FINDING" | tail -4
+cd /verif && ./check "$@" 2>/dev/null | grep -v "^KNOWN-FINDING" | tail -4
 git -C /repo checkout -- .
